@@ -241,6 +241,21 @@ pub struct GSpec {
     pub cx_name: String,
     #[serde(default = "default_cx")]
     pub lt_name: String,
+    /// C19: an extra generic grammar parameter with a where clause
+    #[serde(default)]
+    pub extra: Option<ExtraParam>,
+}
+
+#[derive(Clone, Copy, Debug, PartialEq, Eq, Hash, Serialize, Deserialize)]
+pub enum ExtraParam {
+    /// `grammar<'cx, T>(cx, extra: &T) where T: Clone`
+    Simple,
+    /// built-in lexer: `grammar<'cx, T>(cx, extra: &T) where T: 'input`
+    OutlivesInput,
+    /// `grammar<'cx, 's, T>(cx, extra: &'s T) where T: 's` plus a nonterminal of type `PhantomData<&'s ()>`
+    OutlivesUsedLifetime,
+    /// `grammar<'cx, T, U>(cx, extra: &T) where T: Into<U>, U: Clone` (U appears nowhere else)
+    TwoTypeParams,
 }
 
 fn default_cx() -> String {
@@ -438,7 +453,29 @@ impl GSpec {
         if pc.ascent {
             o.push_str("#[recursive_ascent]\n");
         }
-        o.push_str(&format!("grammar<'{lt}>({cx}: &'{lt} Cx);\n\n", lt = self.lt_name, cx = self.cx_name));
+        match self.extra {
+            None => o.push_str(&format!("grammar<'{lt}>({cx}: &'{lt} Cx);\n\n", lt = self.lt_name, cx = self.cx_name)),
+            Some(ExtraParam::Simple) => o.push_str(&format!(
+                "grammar<'{lt}, XT>({cx}: &'{lt} Cx, extra: &XT) where XT: Clone;\n\n",
+                lt = self.lt_name,
+                cx = self.cx_name
+            )),
+            Some(ExtraParam::OutlivesInput) => o.push_str(&format!(
+                "grammar<'{lt}, XT>({cx}: &'{lt} Cx, extra: &XT) where XT: 'input;\n\n",
+                lt = self.lt_name,
+                cx = self.cx_name
+            )),
+            Some(ExtraParam::OutlivesUsedLifetime) => o.push_str(&format!(
+                "grammar<'{lt}, 'xs, XT>({cx}: &'{lt} Cx, extra: &'xs XT) where XT: 'xs;\n\nXPh: std::marker::PhantomData<&'xs ()> = {{\n    => std::marker::PhantomData,\n}};\n\n",
+                lt = self.lt_name,
+                cx = self.cx_name
+            )),
+            Some(ExtraParam::TwoTypeParams) => o.push_str(&format!(
+                "grammar<'{lt}, XT, XU>({cx}: &'{lt} Cx, extra: &XT) where XT: Into<XU> + Clone, XU: Clone;\n\n",
+                lt = self.lt_name,
+                cx = self.cx_name
+            )),
+        }
         if let Lexer::Extern { .. } = self.lexer {
             o.push_str("extern {\n");
             o.push_str(&format!("    type Location = {};\n", self.loc_ty_name()));
